@@ -133,7 +133,8 @@ pub enum Op {
     ClaimMap { r: usize, oauth: Obj, claim: u8, grp: Uuid, remove: bool },
     DynFilter { r: usize, grp: Obj, filter: u8 },
     Delete { r: usize, obj: Obj },
-    Revive { r: usize, obj: Obj },
+    /// revive `obj` (and, in the same request, `also`) from the recycle bin
+    Revive { r: usize, obj: Obj, also: Option<Obj> },
     PurgeRecycled { r: usize },
     PurgeTombstones { r: usize },
     Reindex { r: usize },
@@ -574,8 +575,12 @@ impl World {
         }
         let newly: Vec<Uuid> = self.dumps[r].entries.iter().filter(|(_, e)| (srv::is_recycled(e) || srv::is_tombstone(e)) && !srv::is_conflict(e)).map(|(u, _)| *u).collect();
         self.dead[r].extend(newly);
-        if let Op::Revive { obj, .. } = &op {
-            if ok { self.dead[r].remove(&obj.uuid()); }
+        if let Op::Revive { .. } = &op {
+            // a revive is the one legitimate way back: whatever it made live is no longer dead
+            if ok {
+                let d = &self.dumps[r];
+                self.dead[r].retain(|u| !d.entries.get(u).map(srv::is_live).unwrap_or(false));
+            }
         }
         if ok && changed {
             match &op {
@@ -713,10 +718,14 @@ impl World {
             Op::Delete { obj, .. } => {
                 wr.internal_delete_uuid(obj.uuid()).map_err(e2s)?;
             }
-            Op::Revive { obj, .. } => {
+            Op::Revive { obj, also, .. } => {
                 let admin = wr.internal_search_uuid(UUID_RBADMIN).map_err(|e| format!("no rbadmin: {e:?}"))?;
                 let ident = Identity::from_impersonate_entry_readwrite(admin);
-                let filter = filter_all!(f_eq(Attribute::Uuid, PartialValue::Uuid(obj.uuid())))
+                let mut terms = vec![f_eq(Attribute::Uuid, PartialValue::Uuid(obj.uuid()))];
+                if let Some(o2) = also {
+                    terms.push(f_eq(Attribute::Uuid, PartialValue::Uuid(o2.uuid())));
+                }
+                let filter = filter_all!(f_or(terms))
                     .validate(wr.get_schema())
                     .map_err(|e| format!("{e:?}"))?;
                 let re = ReviveRecycledEvent { ident, filter };
